@@ -203,7 +203,7 @@ func (c *goCtx) expr(n *Node) string {
 				return "specFresh(" + c.expr(args[0]) + ", " + c.dataParam + ")"
 			}
 			return "true"
-		case "allocated", "disjoint", "separate":
+		case "allocated", "disjoint", "separate", "heapobj":
 			return "true"
 		case "base":
 			return "specBase(" + c.expr(args[0]) + ")"
